@@ -122,6 +122,8 @@ type LintResult struct {
 	SitesHit   int    // instrumented sites that iterated a map with >= 2 keys
 	SitesMulti int    // ... while in a non-identity mode
 	ModeSig    uint64 // digest of the non-identity modes installed
+	// Linter is the (last) Linter instance used by a library-API run, for post-run inspection.
+	Linter *actionlint.Linter
 }
 
 // RunOpts are per-run simulator settings.
@@ -225,6 +227,7 @@ func lintOnce(w *World, res *LintResult, shared *sharedLinter) {
 		} else {
 			l, err = actionlint.NewLinter(&out, opts)
 		}
+		res.Linter = l
 		var errs []*actionlint.Error
 		if err == nil {
 			switch w.API {
